@@ -40,6 +40,33 @@ CHECKS["C01"] = {
     "level_note": "Trusted: my printer's reading of the CIF grammar; dump()/model code; rapidcheck; sanitizers.",
     "engines": [{"src": "pbt/C01_parse.cpp", "quick": {"workers": 8, "cases": 250, "size": 100}, "thorough": {"workers": 16, "cases": 10000, "size": 150}}],
 }
+CHECKS["C02"] = {
+    "level": "exploration",
+    "rule": "rapidcheck generates a managed CIF through the API (blocks, frames nested to depth 3, scalars, loops; values of all six kinds incl. "
+            "NUMB and quoted numbers, nested lists/tables, strings over the CIF 2.0 repertoire without CR, line-length boosters around 2048/4096); "
+            "non-trivial = holds a value that cannot be written bare or single-quoted (newline, both quote kinds, > 2040 chars, composite); distinct = hash of the document",
+    "assumptions": ["equivalence as stated in the property (NUMB == unquoted CHAR of same text; unquoted ';...' may come back quoted; names/codes matched under case-folded normalisation; table keys under NFC)",
+                    "CIF_DISALLOWED_VALUE is accepted only when some table key is not clearly presentable quoted/triple-quoted",
+                    "the re-parse uses the library's own parser (validated separately by C01 against an independent printer)"],
+    "min_evaluations": 300,
+    "technique": "property-based testing (rapidcheck): API-built CIFs, write -> output validity checks -> re-parse -> equivalence oracle",
+    "level_text": "Generated search with a round-trip equivalence oracle plus direct checks of the bytes (magic, strict UTF-8, CIF 2.0 repertoire, line length), under ASan/UBSan with allocation balance. Bounded value sizes; no proof.",
+    "level_note": "Trusted: my equivalence relation and output validators; the library parser for the re-read (C01 covers it); rapidcheck; sanitizers.",
+    "engines": [{"src": "pbt/C02_write.cpp", "quick": {"workers": 8, "cases": 1500, "size": 100}, "thorough": {"workers": 16, "cases": 10000, "size": 150}}],
+}
+CHECKS["C13"] = {
+    "level": "exploration",
+    "rule": "as C02 but written in CIF 1.1 mode; 70% of CIFs purely over the CIF 1.1 repertoire (quotes followed/not followed by blanks, ';' after newline, "
+            "trailing backslashes, long lines), 10% with lists/tables, 20% with non-1.1 characters in codes, names or strings; non-trivial = holds a value "
+            "needing a text field or a refusal case; distinct = hash of the document",
+    "assumptions": ["CIF_DISALLOWED_VALUE is accepted only if the CIF holds a list/table or a string containing newline-semicolon; CIF_DISALLOWED_CHAR only if some code, name or string has a character outside 0x20-0x7E, TAB, LF",
+                    "re-parse with line_folding_modifier=1, text_prefixing_modifier=1 as the property states"],
+    "min_evaluations": 300,
+    "technique": "property-based testing (rapidcheck): API-built CIFs, CIF 1.1 write -> purity/line checks -> re-parse -> equivalence or justified refusal",
+    "level_text": "Generated search; oracle = refusal-code justification predicate or full round-trip equivalence plus byte-level purity checks, under ASan/UBSan.",
+    "level_note": "Trusted: my predicate of CIF 1.1 expressibility, the equivalence relation, the library parser for the re-read.",
+    "engines": [{"src": "pbt/C13_write11.cpp", "quick": {"workers": 8, "cases": 1500, "size": 100}, "thorough": {"workers": 16, "cases": 10000, "size": 150}}],
+}
 
 # properties not claimed yet: reason shown in MANIFEST.not_applicable
 NOT_YET = {}
